@@ -171,7 +171,7 @@ func (s *stepper) Begin(b replay.Behaviour, rng *rand.Rand) error {
 	s.points = haveHookPoints()
 	s.inCall = map[int]chan struct{}{}
 	s.conns = map[int]*cconn{}
-	s.prog = map[string]int{"counted": 0, "done": 0, "timer": 0}
+	s.prog = map[string]int{"counted": 0, "done": 0, "timer_runs": 0}
 	if s.wantHooks && !s.points {
 		s.skipAll = true
 		return nil
@@ -237,7 +237,7 @@ func (s *stepper) Begin(b replay.Behaviour, rng *rand.Rand) error {
 				s.mu.Unlock()
 			case "listener.timer.done":
 				s.mu.Lock()
-				s.prog["timer"]++
+				s.prog["timer_runs"]++
 				s.mu.Unlock()
 			}
 		})
@@ -374,9 +374,9 @@ func reader(c *cconn) {
 
 func (s *stepper) dial() (net.Conn, error) {
 	if s.transport == "unix" {
-		return net.DialTimeout("unix", s.path, 3*time.Second)
+		return net.DialTimeout("unix", s.path, 10*time.Second)
 	}
-	return net.DialTimeout("tcp", s.addr, 3*time.Second)
+	return net.DialTimeout("tcp", s.addr, 10*time.Second)
 }
 
 func (s *stepper) sockState() string {
@@ -654,6 +654,11 @@ func (s *stepper) Step(i int, st replay.Step) (replay.Obs, error) {
 			cc.isClosed = true
 			cc.closed = time.Now()
 			obs["__note__"] = "dial: " + err.Error()
+			if ne, ok := err.(net.Error); ok && ne.Timeout() {
+				// neither accepted nor refused within 10 s: the machine stalled
+				s.skipAll = true
+				return replay.Obs{"__skip__": true, "__note__": "unrealisable: " + err.Error()}, nil
+			}
 			if replay.Bool(st.Exp, "connected") {
 				// refused: has the listener gone, and was it entitled to?
 				time.Sleep(20 * time.Millisecond)
